@@ -499,6 +499,19 @@ func (env *specEnv) call(e *ast.CallExpr) Val {
 			return Val{T: "false"}
 		}
 		return Val{T: env.seqEq(arg(0), arg(1)), Sort: "Bool"}
+	case "string":
+		// string(b) for a byte slice, as in Go
+		x := arg(0)
+		if x.Ty != nil {
+			if sl, ok := x.Ty.Underlying().(*types.Slice); ok && isInteger(sl.Elem()) {
+				return Val{T: fv.strOfBytes(env.st, x.T, sl.Elem()), Ty: types.Typ[types.String]}
+			}
+			if isString(x.Ty) {
+				return x
+			}
+		}
+		env.fail("string(): argument is not a byte slice")
+		return Val{T: fv.fresh("specerr", "Str"), Ty: types.Typ[types.String]}
 	case "fresh":
 		x := arg(0)
 		r := x.T
